@@ -26,6 +26,7 @@ type PtyProg struct {
 	W     int    `json:"w"`
 	Pop   bool   `json:"pop"`
 	Exact bool   `json:"exact"` // the persist marks are reliable (no popped bar is ever clipped)
+	ReqW  int    `json:"reqw"`  // WithWidth (0: not given); may be wider than the terminal, which then limits the rows
 	Bars  []struct {
 		Ext   int  `json:"ext"`
 		NoPop bool `json:"nopop"`
@@ -84,6 +85,9 @@ func runPty(pg *PtyProg) ([]Event, error) {
 	}()
 	ch := make(chan interface{})
 	opts := []mpb.ContainerOption{mpb.WithOutput(s), mpb.WithManualRefresh(ch)}
+	if pg.ReqW > 0 {
+		opts = append(opts, mpb.WithWidth(pg.ReqW))
+	}
 	if pg.Pop {
 		opts = append(opts, mpb.PopCompletedMode())
 	}
@@ -98,12 +102,17 @@ func runPty(pg *PtyProg) ([]Event, error) {
 		case "add":
 			i := st.B
 			bc := pg.Bars[i]
-			filler := mpb.BarFillerFunc(func(w io.Writer, _ decor.Statistics) error {
+			filler := mpb.BarFillerFunc(func(w io.Writer, st decor.Statistics) error {
 				fmu.Lock()
 				fills[i]++
 				n := fills[i]
 				fmu.Unlock()
-				_, err := fmt.Fprintf(w, "b%d.0#%d", i, n)
+				// like the library's own fillers, it fills the width it is given
+				row := fmt.Sprintf("b%d.0#%d", i, n)
+				if pad := st.AvailableWidth - len(row); pad > 0 {
+					row += strings.Repeat("=", pad)
+				}
+				_, err := io.WriteString(w, row)
 				return err
 			})
 			o := []mpb.BarOption{mpb.BarFillerTrim()}
